@@ -122,7 +122,7 @@ CHECKS = {
     "C14": dict(
         text="Proof: (c14_first_report) the message of an always-Break pass-through error type is the rendering of the first call to the error type, and that call is the same under "
              "every script (hence the first report of the keep-going run); (c14_ok_same) an Ok run is the same run under every script; (c14_path_roundtrip, c14_path_injective) the JSON rendering of a location parses back into exactly its steps "
-             "when no key contains '.' or '[' (for other keys the text is ambiguous by nature), hence names the place unambiguously. Correspondence: JsonError and QueryParamError messages "
+             "when no key contains '.' or '[' (for other keys the text is ambiguous by nature), hence names the place unambiguously; (c14_contents_*) text level: every message contains the back-quoted path from the root below the root and no place text at the root, and per kind the quoted JSON text of the offending value with the expected kinds, the missing field, the unknown key or value with the suggestion text (empty or one accepted alternative) and every accepted alternative, both lengths with the sequence, the detail message - for JsonError and QueryParamError. Correspondence: JsonError and QueryParamError messages "
              "compared character by character with Messages.v (paths, expected-kinds phrase, JSON text incl. escaping, did-you-mean, lengths) on every kind at every depth; monitor adds that "
              "the first report is true of the payload (path resolves to the quoted value).",
         ref="5 C14", technique="Coq theorems from the answer-insensitivity invariant + C01/C12; exact-string in-Coq differential check",
@@ -147,7 +147,7 @@ CHECKS = {
     "C07": dict(
         text="Proof: (c07_pairing) for every field list in any declaration order and attribute mix, the match arms generated from the vectors of NamedFieldsInfo are, position by position, the "
              "non-skipped fields in declaration order, each with its identifier, effective key, type, error type, conversion, default, map and missing-field function (stable sort + positional "
-             "zip proved); (c07_variant_scope) a variant's fields are renamed by the variant's own rename_all only; (c07_effective_key) rename, else rename_all, else identifier; (c07_field_filled_from_own_key, c07_own_member_result, specification level, interpreter through the C02 refinement) with "
+             "zip proved); (c07_variant_scope) a variant's fields are renamed by the variant's own rename_all only; (c07_effective_key) rename, else rename_all, else identifier; (c07_member_fills_first_claimant, c07_claimed_key_fills) for every field list, colliding keys included, a member only ever fills a field whose effective key is exactly the member's key - the first one declared with it; (c07_field_filled_from_own_key, c07_own_member_result, specification level, interpreter through the C02 refinement) with "
              "distinct keys the value a field ends with is the result of the one member carrying exactly its effective key, whatever the other members are, else its default. camelCase / "
              "lowercase (convert_case, to_lowercase) are modelled for ASCII identifiers and tied by correspondence on generated derive inputs with payloads over all plausible keys.",
         ref="5 C07", technique="Coq theorems about the derive front-end model (list/zip/filter lemmas); in-Coq differential check on generated derive inputs compiled by the real macro",
